@@ -1173,6 +1173,11 @@ func (gqm *GroupQuotaManager) recursiveUpdateGroupTreeWithDeltaAllocated(deltaAl
 		if curQuotaInfo.Name == extension.RootQuotaName {
 			return
 		}
+		if curQuotaInfo.Name == extension.SystemQuotaName || curQuotaInfo.Name == extension.DefaultQuotaName {
+			// the used of the system and default quota is already excluded from the total resource the root divides,
+			// so it must not be held once more as a guarantee in the root's runtime calculator.
+			continue
+		}
 
 		// update the guarantee.
 		guaranteed := curQuotaInfo.CalculateInfo.Allocated.DeepCopy()
